@@ -388,8 +388,15 @@ func largeStatesJob(j Job, r *JobResult) {
 	pass := func(path []Op) bool {
 		build := func() Inst {
 			in := s.New()
-			for _, o := range path {
+			for i, o := range path {
 				inflightSeq.Add(1)
+				if ph, ok := in.(phased); ok && i == len(path)-1 && (check == "pure" || check == "race") {
+					// the last operation WITHOUT the observers of the transition oracle: whatever a reader may
+					// build lazily has not been built yet when the reader passes begin
+					o := o
+					safeCheck(func() *Viol { return ph.Do(o) }, nil, o.String())
+					continue
+				}
 				if v := safeStep(in, o, nil); v != nil && v.Class == "panic" {
 					panic("tool error: fill history panics: " + v.Msg) // reported by the family's own property
 				}
